@@ -274,7 +274,7 @@ func asyncWant(items []string, nrows int) []any {
 	return rows
 }
 
-const stepTimeout = 5 * time.Second
+const stepTimeout = 30 * time.Second // generous: the machine may be busy; a step that never comes stays away however long one waits
 
 func waitCh(ch chan struct{}) bool {
 	select {
